@@ -73,7 +73,12 @@ var entryPoints = []entryPoint{
 			_, _ = webauthn.VerifyNoneAttestationStatement(o, h)
 		}
 	}},
-	{"cose.UnmarshalPublicKey", func(b []byte) { k, _, _ := cose.UnmarshalPublicKey(b); drainKey(k) }},
+	{"cose.UnmarshalPublicKey", func(b []byte) {
+		// (on error the interface value returned may hold a typed nil pointer: it is not a value to call methods on)
+		if k, _, err := cose.UnmarshalPublicKey(b); err == nil {
+			drainKey(k)
+		}
+	}},
 	{"cose.UnmarshalECDSAPublicKey", func(b []byte) {
 		k, _, err := cose.UnmarshalECDSAPublicKey(b)
 		if err == nil {
@@ -203,6 +208,36 @@ var entryPoints = []entryPoint{
 	}},
 }
 
+func init() {
+	entryPoints = append(entryPoints,
+		entryPoint{"ceremony.authentication(storedKey)", func(b []byte) {
+			// the stored public key is the input; authenticator data and client data are honest
+			st := webauthn.NewInMemoryCredentialStorage()
+			_ = st.SetCredential(context.Background(), &webauthn.Credential{ID: []byte("x"), PublicKey: b})
+			rp := webauthn.NewRelyingParty("https://example.com", st)
+			cd := []byte(`{"type":"webauthn.get","challenge":"AAAA","origin":"https://example.com"}`)
+			ad := append(sha([]byte("example.com")), 0x01, 0, 0, 0, 0)
+			for _, sig := range [][]byte{nil, {0x30, 0x00}, make([]byte, 64), make([]byte, 256)} {
+				_, _ = rp.VerifyAuthenticationCeremony(context.Background(), &webauthn.PublicKeyCredentialRequestOptions{Challenge: []byte{0, 0, 0}},
+					&webauthn.PublicKeyAssertionCredential{RawID: []byte("x"), Response: webauthn.AuthenticatorAssertionResponse{ClientDataJSON: cd, AuthenticatorData: ad, Signature: sig}})
+			}
+		}},
+		entryPoint{"ceremony.registration(attestedKey)", func(b []byte) {
+			// the attested credential key is the input, inside otherwise honest none / packed-self attestation objects
+			ad := AuthDataSpec{RPIDHash: sha([]byte("example.com")), Flags: 0x41, AAGUID: make([]byte, 16), CredID: []byte("x"), Key: b}.Bytes()
+			cd := []byte(`{"type":"webauthn.create","challenge":"AAAA","origin":"https://example.com"}`)
+			for _, stmt := range [][]byte{cborMap(), cborMap(cborText("alg"), cborInt(-8), cborText("sig"), cborBytes(make([]byte, 64))), cborMap(cborText("alg"), cborInt(-7), cborText("sig"), cborBytes([]byte{0x30, 0}))} {
+				for _, f := range []string{"none", "packed"} {
+					ao := cborMap(cborText("fmt"), cborText(f), cborText("attStmt"), stmt, cborText("authData"), cborBytes(ad))
+					rp := webauthn.NewRelyingParty("https://example.com", webauthn.NewInMemoryCredentialStorage())
+					_, _ = rp.VerifyRegistrationCeremony(context.Background(), &webauthn.PublicKeyCredentialCreationOptions{Challenge: []byte{0, 0, 0},
+						PubKeyCredParams: []webauthn.PublicKeyCredentialParameters{{COSEAlgorithmIdentifier: -7}, {COSEAlgorithmIdentifier: -8}, {COSEAlgorithmIdentifier: -257}, {COSEAlgorithmIdentifier: -36}, {COSEAlgorithmIdentifier: -39}}},
+						&webauthn.PublicKeyCreationCredential{RawID: []byte("x"), Response: webauthn.AuthenticatorAttestationResponse{ClientDataJSON: cd, AttestationObject: ao}})
+				}
+			}
+		}})
+}
+
 const entryBudget = 20 * time.Second
 
 func runEntry(ep entryPoint, data []byte) M {
@@ -259,7 +294,7 @@ func init() {
 			for _, f := range allFormats {
 				out = append(out, reg(f).AttObj())
 			}
-		case "cose.UnmarshalPublicKey", "cose.UnmarshalECDSAPublicKey", "cose.UnmarshalEdDSAPublicKey", "cose.UnmarshalRSAPublicKey":
+		case "cose.UnmarshalPublicKey", "cose.UnmarshalECDSAPublicKey", "cose.UnmarshalEdDSAPublicKey", "cose.UnmarshalRSAPublicKey", "ceremony.authentication(storedKey)", "ceremony.registration(attestedKey)":
 			for _, a := range []int{algES256, algEdDSA, algRS256, algES512} {
 				out = append(out, genKeyPair(r, a).COSE(true))
 			}
@@ -351,6 +386,16 @@ func init() {
 				cborMap(cborInt(1), cborInt(3), cborInt(3), cborInt(-257), cborInt(-1), cborBytes(c.R.Bytes(4096)), cborInt(-2), cborBytes([]byte{0x40, 0, 0, 0, 0, 0, 0, 0})),
 				cborMap(cborInt(1), cborInt(3), cborInt(3), cborInt(-37), cborInt(-1), cborBytes([]byte{1}), cborInt(-2), cborBytes([]byte{1})),
 				cborMap(cborInt(1), cborInt(1), cborInt(3), cborInt(-8), cborInt(-1), cborInt(6), cborInt(-2), cborBytes(zero32)))
+			// key material of every kind with lengths off by one, doubled, empty
+			for _, l := range []int{0, 1, 31, 33, 64, 65} {
+				cases = append(cases,
+					cborMap(cborInt(1), cborInt(1), cborInt(3), cborInt(-8), cborInt(-1), cborInt(6), cborInt(-2), cborBytes(c.R.Bytes(l))),
+					cborMap(cborInt(1), cborInt(1), cborInt(-1), cborInt(6), cborInt(-2), cborBytes(c.R.Bytes(l))),
+					cborMap(cborInt(1), cborInt(2), cborInt(3), cborInt(-7), cborInt(-1), cborInt(1), cborInt(-2), cborBytes(c.R.Bytes(l)), cborInt(-3), cborBytes(c.R.Bytes(l))),
+					cborMap(cborInt(1), cborInt(2), cborInt(3), cborInt(-36), cborInt(-1), cborInt(3), cborInt(-2), cborBytes(c.R.Bytes(l+2)), cborInt(-3), cborBytes(c.R.Bytes(l))),
+					cborMap(cborInt(1), cborInt(3), cborInt(3), cborInt(-257), cborInt(-1), cborBytes(c.R.Bytes(l)), cborInt(-2), cborBytes([]byte{1, 0, 1})),
+					cborMap(cborInt(1), cborInt(3), cborInt(3), cborInt(-39), cborInt(-1), cborBytes(c.R.Bytes(l)), cborInt(-2), cborBytes(c.R.Bytes(l%9))))
+			}
 			if c.Thorough() {
 				cases = append(cases, cborMap(cborInt(1), cborInt(3), cborInt(3), cborInt(-257), cborInt(-1), cborBytes(append([]byte{0xff}, c.R.Bytes(59999)...)), cborInt(-2), cborBytes([]byte{1, 0, 1})))
 			}
